@@ -128,7 +128,7 @@ var universe []Val
 func cases(tier string, seed uint64) int {
 	n := len(universe)
 	if tier == "thorough" {
-		return n*n + 400000
+		return n*n + 2000000
 	}
 	return n*n/3 + 6000
 }
